@@ -82,7 +82,7 @@ def encode_state(st: dict, length: int = 24) -> bytes:
     b[5] = 0x7F
     b[7] = 0x30 | st["swing"]
     b[8] = (0x80 if st["follow"] else 0) | (0x20 if st["turbo"] and st.get("turbo_pos", "both") != "primary" else 0) | (0x40 if st["aux"] == 2 else 0)
-    b[9] = (0x10 if st["eco"] else 0) | (0x20 if st["purifier"] else 0) | (0x08 if st["aux"] == 1 else 0)
+    b[9] = (0x10 if st["eco"] else 0) | (0x20 if st["purifier"] else 0) | (0x08 if st["aux"] == 1 or (st["aux"] == 2 and st.get("aux_both")) else 0)
     b[10] = (1 if st["sleep"] else 0) | (2 if st["turbo"] and st.get("turbo_pos", "both") != "alt" else 0) | (4 if st["fahr"] else 0)
     b[11] = st.get("indoor", 0xFF)
     b[12] = st.get("outdoor", 0xFF)
